@@ -360,11 +360,33 @@ def rule_n(F):
         fname = (f.root or f.short).rsplit("::", 1)[-1] + ("{closure}" if f.is_closure else "")
         inherited = closure_guard(F, f, cfgd)
         k = 0
+        # `mem::replace(&mut data[i], v)` / `mem::take` / `ptr::read` hand the old element out as well
+        taken_refs = set()
+        for _bi, t in mu.calls(f):
+            if any(n_.endswith("mem::replace") or n_.endswith("mem::take") or n_.endswith("ptr::read") or n_.endswith("mem::swap")
+                   for n_ in callee_names(t["func"])) and t["args"]:
+                l0 = op_local(t["args"][0])
+                seen0 = set()
+                while l0 is not None and l0 not in seen0:
+                    seen0.add(l0)
+                    taken_refs.add(l0)
+                    d0 = du.sole_def(l0)
+                    if d0 is None or d0[2] != "assign" or d0[3]["rv"]["k"] not in ("ref", "rawptr", "use"):
+                        break
+                    pl0 = d0[3]["rv"].get("place") or op_place(d0[3]["rv"].get("op"))
+                    if pl0 is None or [e for e in pl0["p"] if e["k"] == "index"]:
+                        break
+                    l0 = pl0["l"] if all(e["k"] == "deref" for e in pl0["p"]) else None
         for bi, b in enumerate(f.blocks):
             for st in b["stmts"]:
-                if st["k"] != "assign" or st["rv"]["k"] != "use":
+                if st["k"] != "assign":
                     continue
-                pl = op_place(st["rv"]["op"])
+                if st["rv"]["k"] == "use":
+                    pl = op_place(st["rv"]["op"])
+                elif st["rv"]["k"] in ("ref", "rawptr") and st["place"]["l"] in taken_refs and not st["place"]["p"]:
+                    pl = st["rv"]["place"]
+                else:
+                    continue
                 if pl is None:
                     continue
                 idx = [e for e in pl["p"] if e["k"] == "index"]
